@@ -30,7 +30,7 @@ C02Step(s, ev) ==
       isErr == "error" \in DOMAIN ev
       got == IF isErr THEN ErrV ELSE LoadVal(ev.res)
   IN IF want.t = "unm" THEN [ok |-> TRUE, st |-> s, drop |-> TRUE, msg |-> ""]
-     ELSE [ok |-> want = got, st |-> s, drop |-> FALSE,
+     ELSE [ok |-> want = got, st |-> s, drop |-> FALSE, cont |-> TRUE,
            msg |-> "want " \o ToString(want) \o " got " \o ToString(got)]
 
 TraceInit2 == TLCSet(2, ndJsonDeserialize(IOEnv.DOCS))
